@@ -196,7 +196,7 @@ def run(ctx):
   # credit every delta to its own client's cluster with its own weight); clients 1 and 3 sit at cluster 1, client 2 at cluster 2
   fxh = {'bs': 2, 'epochs': 1, 'steps': None, 'drop': False, 'seed': 5, 'skip': False}
   fxd = [[[0, 0]], [[2, 2], [3, 2], [2, 3], [2, 2], [1, 2]], [[0, 1], [1, 0], [0, 0]]]
-  fx = {'data': fxd, 'init': [island.R(0), island.R(0)], 'copt': island.opt_spec('sgd', 0.25), 'sopt': island.opt_spec('sgd', 1), 'mu': island.R(0), 'rounds': 2,
+  fx = {'data': fxd, 'init': [island.R(0), island.R(0)], 'copt': island.opt_spec('sgd', 0.5), 'sopt': island.opt_spec('sgd', 1), 'mu': island.R(0), 'rounds': 2,
         'cohorts': [[1, 2, 3], [3, 1, 2]]}
   fx['stream'] = island.real_streams(fedjax, island.datasets(fedjax, fxd), island.hparams(fedjax, fxh))
   crafted = [{'inst': fx, 'h': fxh, 'exact': False, 'fixed': True}]
@@ -228,6 +228,9 @@ def run(ctx):
                   cohorts=[[cl for cl in sorted(a) if a[cl] == kk] for a in assigned])
       insts.append(inst)
     if not all(island.within_island(i) for i in insts):
+      # a crafted instance must never be dropped silently (only other assignments than the crafted ones excuse it)
+      if c.get('fixed') and all(a == {1: 0, 2: 1, 3: 0} for a in assigned):
+        raise Machinery('the fixed HypCluster instance left the exact island: it would be skipped silently')
       continue
     hyp_cases.append((c, nk, rec, insts, assigned))
   flat = [i for (_, _, _, insts, _) in hyp_cases for i in insts]
